@@ -171,7 +171,13 @@ impl TypedReprRef<'_> {
                 RefLarge(words) => {
                     let mut buffer = Buffer::from(words);
                     debug_assert_zero!(add::sub_one_in_place(&mut buffer));
-                    words_to_le_bytes::<true>(&buffer)
+                    let mut bytes = words_to_le_bytes::<true>(&buffer);
+                    // |x| - 1 is one byte shorter than |x| when |x| is a power of 256,
+                    // the missing (flipped) zero byte must be restored
+                    let len = words.len() * WORD_BYTES
+                        - words.last().unwrap().leading_zeros() as usize / 8;
+                    bytes.resize(len, 0xff);
+                    bytes
                 }
             }
         } else {
@@ -219,7 +225,15 @@ impl TypedReprRef<'_> {
                 RefLarge(words) => {
                     let mut buffer = Buffer::from(words);
                     debug_assert_zero!(add::sub_one_in_place(&mut buffer));
-                    words_to_be_bytes::<true>(&buffer)
+                    let mut bytes = words_to_be_bytes::<true>(&buffer);
+                    // |x| - 1 is one byte shorter than |x| when |x| is a power of 256,
+                    // the missing (flipped) zero byte must be restored
+                    let len = words.len() * WORD_BYTES
+                        - words.last().unwrap().leading_zeros() as usize / 8;
+                    if bytes.len() < len {
+                        bytes.insert(0, 0xff);
+                    }
+                    bytes
                 }
             }
         } else {
